@@ -34,7 +34,9 @@ def dag_cases(policies):
         for g in case["graphs"]:
             g["deadline"] = case["now"] + draw(st.integers(8, 50))
         cand = [g for g in case["graphs"] if g["jobs"][0]["children"]]
-        if cand and draw(st.integers(0, 3)) == 0:
+        # constructed shapes (each needs a history that plain generation meets less than once per quick run)
+        shape = draw(st.sampled_from([None, None, None, "overrun", "replanned", "withdrawn", "planned_chain"])) if cand else None
+        if shape == "overrun":
             # a parent that is running and overruns its strategy (runtime variance) while its children are planned
             g = cand[0]
             gone = lambda rows: [r for r in rows if (r[0] if isinstance(r, list) else r["graph"]) != g["name"]]  # noqa: E731
@@ -50,7 +52,7 @@ def dag_cases(policies):
             else:
                 pol["lookahead"] = 30
             case["shape"] = "overrunning_parent"
-        elif cand and draw(st.integers(0, 3)) == 0:
+        elif shape == "replanned":
             # a parent that holds an earlier plan with its faster strategy and is decided again (retract_schedules) together
             # with its children: whatever strategy it gets now, the children come after it
             g = cand[0]
@@ -69,7 +71,7 @@ def dag_cases(policies):
             else:
                 pol["lookahead"] = 30
             case["shape"] = "replanned_parent"
-        elif cand and draw(st.integers(0, 3)) == 0:
+        elif shape == "withdrawn":
             # a parent whose earlier plan (with its faster strategy) was withdrawn again (Task.unschedule), decided together
             # with its children: nothing of the withdrawn plan may shorten the time the children wait
             g = cand[0]
@@ -87,7 +89,7 @@ def dag_cases(policies):
             else:
                 pol["lookahead"] = 30
             case["shape"] = "withdrawn_parent"
-        elif cand and draw(st.integers(0, 3)) == 0:
+        elif shape == "planned_chain":
             # a chain planned ahead by an earlier invocation (parent and first child both SCHEDULED) that a non-retracting
             # planner meets again together with a newcomer
             g = cand[0]
@@ -216,6 +218,6 @@ def execute(case):
 
 
 CHECKS = [
-    Check("gurobi_planners", execute, strategy=lambda tier: dag_cases(("ILP", "TetriSched_Gurobi")), budget={"quick": 320, "thorough": 8000}),
-    Check("z3_planner", execute, strategy=lambda tier: dag_cases(("Z3",)), budget={"quick": 160, "thorough": 4000}),
+    Check("gurobi_planners", execute, strategy=lambda tier: dag_cases(("ILP", "TetriSched_Gurobi")), budget={"quick": 480, "thorough": 8000}),
+    Check("z3_planner", execute, strategy=lambda tier: dag_cases(("Z3",)), budget={"quick": 200, "thorough": 4000}),
 ]
